@@ -11,5 +11,8 @@ LVq == {"empty", "onetuple", "withinf"}
 TV == {"none", "pair", "one"}
 TVq == {"none", "one"}
 SubV == {"none", "inner", "innerchanged"}
+DV == {"default", "empty", "subset", "changed", "superset"}
+DVq == {"default", "empty", "subset"}
+DefA == {"0", "3"}
 NV == {"auto", "explicit", "autolike"}
 ====
